@@ -77,6 +77,7 @@ type Node struct {
 	Prefix  string // text put in front of the command, e.g. "false |" (a pipeline)
 	Prepend string // Process.Prepend (a launcher such as "nice -n 10")
 	PadTo   int
+	GlueIn  bool // in-path placeholders glued to an option: -i={i:x}
 	Rec     bool // a pass-through recorder is attached to every out-port edge
 	// components
 	SplitLines int
